@@ -362,6 +362,13 @@ func (c *Ctx) freshVersion(rule string, fn *ssa.Function, at ssa.Instruction, v 
 		}
 		if clean {
 			ok = true
+			// the generator runs once per write: no way from this write round to the same write without a new call
+			if call, isCall := ir.Resolve(s.(*ssa.Store).Val).(*ssa.Call); isCall && call.Parent() == at.Parent() {
+				if w, _ := (ir.Query{Fn: at.Parent(), From: at, Block: func(x ssa.Instruction) bool { return x == ssa.Instruction(call) }, Target: func(x ssa.Instruction) bool { return x == at }}).Find(); w != nil {
+					ok = false
+					detail = "one generated version is reused for several writes (the generator call is outside the loop): records written in one call share a version"
+				}
+			}
 		}
 	}
 	c.Decide(rule, fn, what, at, ok, detail)
